@@ -87,6 +87,37 @@ def reset_options():
     o.no_color = False
 
 
+_CACHES = None
+
+
+def discover_caches():
+    """Every callable with cache_clear reachable from the package's modules and classes (functools caches of any kind)."""
+    import sys
+    found = {}
+    for mname, mod in list(sys.modules.items()):
+        if mod is None or not (mname == 'bitstring' or mname.startswith('bitstring.')):
+            continue
+        for aname, obj in list(vars(mod).items()):
+            cands = [(f'{mname}.{aname}', obj)]
+            if isinstance(obj, type) and getattr(obj, '__module__', '').startswith('bitstring'):
+                for cname, cobj in list(vars(obj).items()):
+                    cands.append((f'{mname}.{aname}.{cname}', getattr(cobj, '__func__', cobj)))
+            for name, c in cands:
+                if callable(getattr(c, 'cache_clear', None)):
+                    found[id(c)] = (name, c)
+    return [v for v in found.values()]
+
+
+def reset_caches():
+    """State isolation between cases: a case must be a pure function of its JSON (histories live inside a case)."""
+    global _CACHES
+    if _CACHES is None:
+        bitstring_module()
+        _CACHES = discover_caches()
+    for _, c in _CACHES:
+        c.cache_clear()
+
+
 def in_repo_traceback(exc) -> bool:
     """True if the exception was raised from a frame inside the package under test."""
     tb = exc.__traceback__
@@ -129,6 +160,8 @@ def shrink_for_sample(case, limit=400):
 def run_case(sub: Sub, case):
     """Returns ('ok', info) | ('known', finding_id) | ('fail', message) | ('harness', message)."""
     reset_options()
+    if not getattr(sub, 'keep_caches', False):
+        reset_caches()
     try:
         if isinstance(case, dict) and case.get('_amb'):
             o = bitstring_module().options
